@@ -667,10 +667,10 @@ func (c11Stream) Name() string               { return "c11" }
 func (c11Stream) CaseTimeout() time.Duration { return 60 * time.Second }
 func (c11Stream) NoModel() bool              { return true }
 func (c11Stream) Rule() string {
-	return "K connections (0..6) put into one state at the moment Stop is called - none, idle after a bind, half a frame sent, TCP connected to a TLS listener without ClientHello, StartTLS accepted but no ClientHello ever sent (Stop arriving before or after the handler calls Request.StartTLS), pipelining requests as fast as possible, sending searches whose large results they never read (also followed by an Unbind, or with handlers that start writing only after Stop was called) - optionally with a concurrent second Stop and with two-minute read/write timeouts configured on the server; the clients do NOTHING to help after Stop is called; oracle: Stop returns within 3 s and Run returns nil within 3 s more; non-trivial = at least one connection, distinct by scenario"
+	return "K connections (0..6) put into one state at the moment Stop is called - a connection accepted just as Stop cancels (scripted with two hook gates), none, idle after a bind, half a frame sent, TCP connected to a TLS listener without ClientHello, StartTLS accepted but no ClientHello ever sent (Stop arriving before or after the handler calls Request.StartTLS), pipelining requests as fast as possible, sending searches whose large results they never read (also followed by an Unbind, or with handlers that start writing only after Stop was called) - optionally with a concurrent second Stop and with two-minute read/write timeouts configured on the server; the clients do NOTHING to help after Stop is called; oracle: Stop returns within 3 s and Run returns nil within 3 s more; non-trivial = at least one connection, distinct by scenario"
 }
 
-var c11States = []string{"none", "idle", "partial", "tlspending", "busy", "notreading", "notreading-unbind", "busy-late", "starttls-early", "starttls-late"}
+var c11States = []string{"acceptrace", "none", "idle", "partial", "tlspending", "busy", "notreading", "notreading-unbind", "busy-late", "starttls-early", "starttls-late"}
 
 func (c11Stream) Generate(rng *rand.Rand, n int, thorough bool) []Case {
 	var cs []Case
@@ -685,10 +685,63 @@ func (c11Stream) Generate(rng *rand.Rand, n int, thorough bool) []Case {
 	return cs
 }
 
+// c11AcceptRace: a connection is accepted; before the accept loop decides whether to serve it, Stop closes the listener
+// and cancels the context and is held just before it waits for the connections; the accept loop then goes on (it
+// must not serve the connection, nor count it), and Stop is let go: it has nothing to wait for.
+func c11AcceptRace() string {
+	h := func(w *gldap.ResponseWriter, r *gldap.Request) { answer(w, r) }
+	sut, err := startServer(allRoutes(h, nil, nil), nil, nil)
+	if err != nil {
+		return "harness-error start: " + err.Error()
+	}
+	gRun := sut.tr.Block("run.accepted", -1, -1)
+	gStop := sut.tr.Block("stop.cancelled", -1, -1)
+	c, err := net.DialTimeout("tcp", sut.addr, 3*time.Second)
+	if err != nil {
+		sut.tr.ReleaseAll()
+		return "harness-error dial: " + err.Error()
+	}
+	defer c.Close()
+	if !gRun.Arrived(3 * time.Second) {
+		sut.tr.ReleaseAll()
+		return "harness-error accept gate not reached"
+	}
+	stopped := make(chan bool, 1)
+	go func() { stopped <- sut.stop(6 * time.Second) }()
+	if !gStop.Arrived(3 * time.Second) {
+		sut.tr.ReleaseAll()
+		return "harness-error stop gate not reached"
+	}
+	gRun.Release()
+	// the accept loop deals with the connection it had accepted and comes round to its loop head again
+	sut.tr.Wait("run.looptop", 2, -1, 2*time.Second)
+	time.Sleep(10 * time.Millisecond)
+	gStop.Release()
+	verdict := "ok"
+	if !<-stopped {
+		verdict = "Stop did not return within 6s after a connection was accepted while it was cancelling"
+	} else {
+		select {
+		case e := <-sut.runErr:
+			if e != nil {
+				verdict = "Run returned an error after Stop: " + e.Error()
+			}
+		case <-time.After(3 * time.Second):
+			verdict = "Run did not return within 3s after Stop"
+		}
+	}
+	sut.tr.ReleaseAll()
+	sut.finish()
+	return verdict
+}
+
 func (c11Stream) Impl(c Case) string {
 	p := kv(c.Line)
 	tlsConfigs()
 	state, k := p["state"], atoi(p["conns"])
+	if state == "acceptrace" {
+		return c11AcceptRace()
+	}
 	payload := strings.Repeat("z", 60000)
 	h := func(w *gldap.ResponseWriter, r *gldap.Request) {
 		if _, ok := r.VerifMessage().(*gldap.SearchMessage); ok && state == "busy-late" {
